@@ -99,8 +99,9 @@ def fdiv(p, k):
         return Poly({m: c // k for m, c in p.t.items()})
     c0 = p.const_val()
     rest = Poly({m: c for m, c in p.t.items() if m != ()})
-    if c0 == k - 1:
-        return Poly.atom(("cdiv", rest.key(), k))
+    if c0 >= k - 1:
+        # floor((e + (k-1)) / k) == ceil(e / k) for integer e >= 0, with e = rest + (c0 - (k-1))
+        return cdiv(rest.add(Poly.const(c0 - (k - 1))), k)
     if c0 == 0:
         return Poly.atom(("fdiv", rest.key(), k))
     # floor((rest + c0)/k) with other constants: keep as an opaque floor atom (not rewritten further)
